@@ -126,6 +126,7 @@ class AbsInt:
             self.busy = set()
             self.pinned = frozenset()
             self.memo = {}
+            self.use = None  # the Name node being read (set by ev): bindings in an exclusive branch cannot reach it
 
     def eval_in(self, fi, expr, env=None, depth=0):
         return self.ev(expr, AbsInt.Ctx(fi, dict(env or {}), depth))
@@ -136,7 +137,11 @@ class AbsInt:
         if isinstance(e, ast.Constant):
             return self.const(e)
         if isinstance(e, ast.Name):
-            return self.name(e.id, ctx)
+            ctx.use = e
+            try:
+                return self.name(e.id, ctx)
+            finally:
+                ctx.use = None
         if isinstance(e, ast.Attribute):
             if isinstance(e.value, ast.Name) and e.value.id == "self" and ctx.fi is not None and "self" in self._all_params(ctx.fi) and "self" not in ctx.env:
                 return self.self_attr(ctx.fi, e.attr, e)
@@ -175,13 +180,72 @@ class AbsInt:
         loop-carried definition was cut (cyclic) is partial and is not memoised"""
         if not self.ENV_REBINDING:
             return self._name(name, ctx)
-        if name in ctx.memo:
-            return ctx.memo[name]
+        key = (name, self._unreachable(name, ctx))
+        if key in ctx.memo:
+            return ctx.memo[key]
         before = getattr(self, "_n_cyclic", 0)
         v = self._name(name, ctx)
         if getattr(self, "_n_cyclic", 0) == before:
-            ctx.memo[name] = v
+            ctx.memo[key] = v
         return v
+
+    # ---------------------------------------------------------------- branch exclusion
+    @staticmethod
+    def _branch_path(node, root):
+        """[(If node, 'body' | 'orelse')] from the function body down to node; None when a loop encloses one of those Ifs
+        (a binding of one iteration reaches the other branch in the next)"""
+        out = []
+        child, cur = node, getattr(node, "_parent", None)
+        while cur is not None and child is not root:
+            if isinstance(cur, ast.If):
+                if any(child is x for x in cur.body):
+                    out.append((cur, "body"))
+                elif any(child is x for x in cur.orelse):
+                    out.append((cur, "orelse"))
+            elif isinstance(cur, (ast.For, ast.AsyncFor, ast.While)) and out:
+                return None
+            elif isinstance(cur, (ast.FunctionDef, ast.AsyncFunctionDef, ast.Lambda)) and cur is not root:
+                return None
+            child, cur = cur, getattr(cur, "_parent", None)
+        return out if child is root else None
+
+    @staticmethod
+    def _terminates(block):
+        if not block:
+            return False
+        last = block[-1]
+        if isinstance(last, (ast.Return, ast.Raise)):
+            return True
+        if isinstance(last, ast.If):
+            return AbsInt._terminates(last.body) and AbsInt._terminates(last.orelse)
+        return False
+
+    def _unreachable(self, name, ctx):
+        """ids of the binding statements of `name` in the current function that cannot reach the Name node being read: they sit in the
+        other branch of an if that also encloses the read, or in a branch that always returns / raises and does not contain the read"""
+        use = getattr(ctx, "use", None)
+        f = ctx.fi
+        if use is None or f is None:
+            return frozenset()
+        asg = df.assignments(f.node, into_nested=False).get(name, [])
+        if not asg:
+            return frozenset()
+        up = self._branch_path(use, f.node)
+        if up is None:
+            return frozenset()
+        use_at = {id(n): b for n, b in up}
+        out = set()
+        for _v, _p, st in asg:
+            sp = self._branch_path(st, f.node)
+            if not sp:
+                continue
+            for n, b in sp:
+                other = use_at.get(id(n))
+                if other is not None and other != b:
+                    out.add(id(st))
+                elif other is None and self._terminates(getattr(n, b)) and getattr(st, "lineno", 0) < getattr(use, "lineno", 0):
+                    out.add(id(st))
+        return frozenset(out)
 
     # ---------------------------------------------------------------- private helper methods called on self (template-method refactorings)
     self_cls = None  # when set: the concrete class whose instance `self` is (most specific override wins)
@@ -247,6 +311,10 @@ class AbsInt:
         while f is not None:
             key = (id(f.node), name)
             asg = df.assignments(f.node, into_nested=False).get(name, [])
+            if f is ctx.fi and asg:
+                dead = self._unreachable(name, ctx)
+                if dead:
+                    asg = [x for x in asg if id(x[2]) not in dead]
             a = f.node.args
             params = [x.arg for x in a.posonlyargs + a.args + a.kwonlyargs]
             if self.ENV_REBINDING and any(isinstance(v, ast.AugAssign) for v, _p, _s in asg):
